@@ -41,7 +41,10 @@ STD_C = 'VCPU'
 # (label, logical name, path token)
 BAD = [('lower', 'custom_a', 'custom_a'), ('noprefix', 'A', 'A'), ('prefix-only', 'CUSTOM_', 'CUSTOM_'),
        ('badchars', 'CUSTOM_a-b', 'CUSTOM_a-b'), ('256', L256, L256),
-       ('newline', NL, 'CUSTOM_A%0A')]
+       ('newline', NL, 'CUSTOM_A%0A'),
+       # names that only look valid once pasted into / decoded from a JSON document
+       ('json-escape', 'CUSTOM_\\u0041', 'CUSTOM_%5Cu0041'),
+       ('json-inject', 'CUSTOM_A","name":"CUSTOM_B', 'CUSTOM_A%22%2C%22name%22%3A%22CUSTOM_B')]
 ALLOWED = frozenset('ABCDEFGHIJKLMNOPQRSTUVWXYZ0123456789_')
 RP = P(1)
 NEW = object()
